@@ -322,6 +322,7 @@ _tag_re = re.compile(_tag)
 #
 _quoted = r'"(([^\015\012\\"]|\\["\\])*)"'
 _quoted_re = re.compile(_quoted)
+_quoted_escape_re = re.compile(r'\\(["\\])')
 
 # A literal string has a 'literal prefix' which is of the from {\d}?+CRLF.
 # The "+" indicates a non-synchronizing literal
@@ -2064,7 +2065,8 @@ class IMAPClientCommand:
     def _p_string(self) -> str:
         """A string is either a 'quoted string' or a 'literal string'"""
         try:
-            return self._p_re(_quoted_re)[1:-1]
+            quoted = self._p_re(_quoted_re)[1:-1]
+            return _quoted_escape_re.sub(r"\1", quoted)
         except NoMatch:
             pass
 
